@@ -229,16 +229,16 @@ class CompMixin:
             else:
                 evs = tuple(event_sig(e) for e in p.events)
             sig = (term, evs, tuple(dsig), ys)
+            newfacts = {a: dict.__getitem__(it.facts, a) for a in it.facts.own}
             g = groups.get(sig)
             if g is None:
                 g = Outcome(p, sig)
-                g.implied = dict(p.decisions)
+                g.implied = newfacts
                 groups[sig] = g
                 order.append(g)
             else:
                 g.n += 1
-                d = dict(p.decisions)
-                g.implied = {a: v for a, v in g.implied.items() if d.get(a, _MISSING) == v}
+                g.implied = {a: v for a, v in g.implied.items() if newfacts.get(a, _MISSING) == v}
         for g in order:
             # facts that hold on every member path and are implied by the outcome
             pass
@@ -271,7 +271,7 @@ class CompMixin:
             if a not in self.facts:
                 self.facts[a] = v
                 self._apply_fact(a, v)
-        self.notes.append(("outcome", f.qual, self.here(node), oc.n, tuple(rep.decisions)))
+        self.notes.append(("outcome", f.qual, self.here(node), oc.n, tuple(rep.decisions), tuple(rep.notes)))
         if rep.terminal[0] == "return":
             v = rep.terminal[1]
             if f.is_generator():
